@@ -8,6 +8,8 @@ import (
 	"os"
 
 	_ "perun.network/go-perun/backend/sim"
+	simwire "perun.network/go-perun/backend/sim/wire"
+	"perun.network/go-perun/wire"
 	_ "perun.network/go-perun/client"
 	"verif/harness/internal/c05"
 	"verif/harness/internal/c15"
@@ -40,6 +42,9 @@ var drivers = map[string]func(seed int64, tier, out string){
 }
 
 func main() {
+	// wire.NewAddress is process-global and the last package init wins: a driver that links
+	// wire/net/simple would otherwise replace the sim wire address used by all codecs.
+	wire.SetNewAddressFunc(func() wire.Address { return simwire.NewAddress() })
 	seed := flag.Int64("seed", 1, "PRNG seed")
 	_ = flag.String("replay", "", "replay file (informational)")
 	tier := flag.String("tier", "quick", "quick|thorough")
